@@ -244,6 +244,21 @@ impl Prop for C08Prop {
                 }
             }
         }
+        // small scope: every noise string over {1b, 01, 00} up to length 6 (thorough: 9) that satisfies
+        // the side condition, on a new decoder and after a delivered frame
+        let maxlen = if _tier == Tier::Thorough { 9 } else { 6 };
+        for (i, g) in gen::all_strings(&[0x1b, 0x01, 0x00], maxlen).into_iter().enumerate() {
+            if g.is_empty() || !noise_ok(&g) {
+                continue;
+            }
+            let hist = if i % 2 == 0 { "new" } else { "after-delivered" };
+            let fe = [Fe::Push, Fe::Streaming, Fe::RdIter, Fe::RdIo][i % 4];
+            let mut l = build(&mut rng, hist, fe, None, false, Tier::Quick);
+            let at = l.segs.len() - 1;
+            l.segs.insert(at, Seg::Noise(Hx(g)));
+            l.sub = hist.into();
+            v.push(Scenario::Link(l));
+        }
         v
     }
 
